@@ -48,6 +48,10 @@ pub fn corpus(thorough: bool, seed: u64) -> Vec<Grammar> {
         G::Many(Box::new(G::Alt(vec![lit("a"), G::Seq(vec![lit("b"), lit("c")])]))),
         G::Seq(vec![G::Many(Box::new(lit("a"))), lit("a")]),
         G::Dd(Box::new(G::Alt(vec![G::Sub(vec![lit("--color="), nt("U")]), G::Seq(vec![lit("--color"), nt("U")])])), "dd".into()),
+        G::Sub(vec![lit("--color="), G::Dd(Box::new(nt("U")), "when".into())]),
+        G::Sub(vec![lit("pre"), G::Dd(Box::new(lit("a")), "d".into())]),
+        G::Sub(vec![G::Dd(Box::new(G::Sub(vec![lit("a"), cmd("echo 1")])), "descr".into()), lit("=foo")]),
+        G::Sub(vec![lit("--x="), G::Dd(Box::new(G::Alt(vec![lit("a"), lit("b")])), "d".into()), nt("U")]),
     ];
     out.extend(special.iter().map(wrap));
     let mut rng = Rng::new(seed.wrapping_add(17));
@@ -245,7 +249,7 @@ pub fn run(thorough: bool, seed: u64) -> Report {
     let corpus = corpus(thorough, seed);
     let shells: Vec<&str> = if thorough { SHELLS.to_vec() } else { vec!["bash", "zsh"] };
     let mut rep = Report {
-        bound: format!("every expression tree with <= {} nodes over the leaf vocabulary + 10 hand-picked shapes + {} seeded random trees of 6..15 nodes, each wrapped as `cmd E;` with plain/specialised definitions, x shells {:?}", if thorough { 5 } else { 4 }, if thorough { 3000 } else { 300 }, shells),
+        bound: format!("every expression tree with <= {} nodes over the leaf vocabulary + 14 hand-picked shapes + {} seeded random trees of 6..15 nodes, each wrapped as `cmd E;` with plain/specialised definitions, x shells {:?}", if thorough { 5 } else { 4 }, if thorough { 3000 } else { 300 }, shells),
         exhaustive: true,
         ..Default::default()
     };
